@@ -628,6 +628,9 @@ impl FixtureDatabase {
             })
             .map(|import| import.module_path)
             .collect();
+        // An import statement is a binding: a later one rebinds the name, so the last
+        // import that carries the fixture is the one pytest sees.
+        module_paths.reverse();
         module_paths.extend(self.extract_pytest_plugins(&module.body));
 
         for module_path in module_paths {
